@@ -11,6 +11,12 @@ streams (same payload, three observables)
        parsed text vs the model's declarative dictionary `specDict`                                    (correspondence)
   chk  the property instance: well-formed -> no exception, valid text, same tree, dictionary == the EXPECTED dictionary
        computed here from the abstract configuration alone (independent oracle), no `{ }` in the text  (property)
+  g-gen  every case of `gen` also run through the definition TRANSLATED from the source of `C2Profile.from_beacon_config`
+       (tools/gen/py_c2gen.py -> Gen/PyC2Gen.lean, builder API instantiated in Model/C13Gen.lean; proved equal to the model in
+       Props/C13Gen.lean) and compared with the real class method                                        (correspondence)
+  g-arg  the translated definition vs the class method on configuration objects whose pretty values have other kinds than
+       beacon.py produces (tools/harness/pyuval_t13.py)                                                  (correspondence)
+  pyu  the run-time operations added for the translation (Model/PyU_T13.lean) vs CPython                (correspondence)
 """
 from __future__ import annotations
 
@@ -32,16 +38,22 @@ from dissect.cobaltstrike.beacon import BeaconConfig
 from dissect.cobaltstrike.c2profile import C2Profile
 
 from . import common as C
+from . import pyuval_t13
 
 logging.getLogger("dissect.cobaltstrike.beacon").setLevel(logging.CRITICAL)
 
 ID = "C13"
 DRIVER = "drv_c13"
 GEN = ["grammar", "profile_gen", "strlit"]
+GEN += ["beacon", "py_c2prof", "py_c2gen"]
+EXTRA_PROP_FILES = ["Props/C13Gen.lean"]
 STREAMS = {
     "gen": {"relevant": False, "desc": "C2Profile.from_beacon_config(BeaconConfig(block)).tree vs fromBeaconConfig; pretty values / uris of the library vs the line"},
     "rt": {"relevant": False, "desc": "as_text() succeeds / from_text(text).tree == tree (comment aside) / from_text(text).as_dict() vs specDict"},
     "chk": {"relevant": True, "desc": "property instance: WellFormedCfg -> total, valid, faithful (as_dict == independent expected dictionary), no empty `{ }` block in the text"},
+    "g-gen": {"relevant": False, "desc": "the definition TRANSLATED from the source of from_beacon_config (Gen/PyC2Gen.lean; builder API instantiated in Model/C13Gen.lean) vs the class method, on every case of gen"},
+    "g-arg": {"relevant": False, "desc": "translated from_beacon_config vs the class method on configuration objects with pretty values of other kinds (tools/harness/pyuval_t13.py)"},
+    "pyu": {"relevant": False, "desc": "run-time operations of Model/PyU_T13.lean (`is True`, dict.items, defaultdict(list) append) vs CPython"},
 }
 TRUSTED = [
     "tools/harness/c13.py: generators, the independent TLV/program encoders, the independent expected dictionary and well-formedness "
@@ -58,6 +70,11 @@ TRUSTED = [
     "a shared Reconstructor instance replaces the per-call `Reconstructor(c2profile_parser)` inside the harness (same class, same "
     "parser object; only its internal parser cache is reused); every 40th heavy case runs with the library's own per-call instance",
     "modelled, not verified: str.lower/replace/partition/join, slicing, f-strings of ints, defaultdict insertion order, Python truthiness",
+    "translation tie (Props/C13Gen.lean): tools/py2leanu.py + Model/PyU.lean, PyU_T12.lean, PyU_T13.lean (Python semantics of the operations "
+    "the translated from_beacon_config uses), tools/gen/py_c2gen.py (logging dropped, builder API external with block objects threaded as "
+    "values under a checked no-aliasing discipline, branches outlined, BeaconSetting members as constants), and the instantiation of the "
+    "builder API in Model/C13Gen.lean (value_to_string = the translated one of C12, DataTransformBlock = the model's dtKids): validated on "
+    "every run by g-gen (every gen case), g-arg (values of other kinds) and pyu (the added run-time operations vs CPython)",
 ]
 ASSUMPTIONS = [
     "pretty values have the shapes beacon.py produces for the canonical TLV types; text is latin-1; execute items are written on the line as the UTF-8 "
@@ -538,8 +555,12 @@ def run_pipeline(payload: str, heavy: bool):
 
 
 def impl(stream, line):
+    if stream == "pyu":
+        return pyuval_t13.run(line)
+    if stream == "g-arg":
+        return pyuval_t13.garg_run(line)
     op, _, payload = line.partition(" ")
-    if stream == "gen":
+    if stream in ("gen", "g-gen"):
         r = run_pipeline(payload, False)
         if "exc" in r:
             raise r["exc"]
@@ -782,6 +803,8 @@ def _parsed(line):
 
 
 def oracle(stream, line, out):
+    if stream in ("pyu", "g-arg", "g-gen"):
+        return None
     uris, ded = _parsed(line)
     wf = py_wf(ded, uris)
     if stream == "gen":
@@ -794,7 +817,9 @@ def oracle(stream, line, out):
 
 
 def nontrivial(stream, line, out):
-    if stream == "gen":
+    if stream in ("pyu", "g-arg"):
+        return not out.startswith("exc ")
+    if stream in ("gen", "g-gen"):
         return out.startswith("ok pv=T tree") and not out.endswith("7374617274:0")
     if stream == "rt":
         return out.startswith("ok text=T reparse=T dict ") and "=" in out.split("dict ", 1)[1]
@@ -802,6 +827,8 @@ def nontrivial(stream, line, out):
 
 
 def shrink(stream, line):
+    if stream in ("pyu", "g-arg"):
+        return
     op, _, payload = line.partition(" ")
     try:
         uris, entries = dec_payload(payload.split(" "))
@@ -1115,6 +1142,7 @@ def emit(entries, heavy=True, rt=True):
     uris = uris_of(entries)
     payload = enc_payload(uris, entries)
     yield "gen", "gen " + payload
+    yield "g-gen", "ggen " + payload
     if heavy:
         if rt:
             yield "rt", "rt " + payload
@@ -1353,6 +1381,11 @@ def gen(tier, rng, shard, nshards):
     n_cheap = (40000 if thorough else 5000) // nshards
     for i in range(n_cheap):
         yield from emit(gen_config(rng, p=rng.choice([0.1, 0.5, 0.9]), wf=rng.random() < 0.8, dup=0.3), heavy=False)
+    # ---- the translated definition on values of other kinds; the run-time operations added for it ------------------------------------
+    for i in range((12000 if thorough else 1600) // nshards):
+        yield "g-arg", pyuval_t13.garg_case(rng)
+    for i in range((20000 if thorough else 2400) // nshards):
+        yield "pyu", pyuval_t13.case(rng)
 
 
 def extra_checks(tier, rng, lean):
